@@ -47,7 +47,7 @@ def generate(rng, tier, cls):
             'schedule': [], 'faults': [],
             'block_size': rng.choice([None, None, 1, 13, 97]),
             'via': rng.choice(['from_stream', 'from_stream', 'from_bytes',
-                               'shared_reader'])}
+                               'shared_reader', 'subclass'])}
 
 
 def sect_states(out, snap):
@@ -186,6 +186,9 @@ def execute(scn, L):
     try:
         if via == 'from_bytes':
             parsed = L.DiffX.from_bytes(data)
+        elif via == 'subclass':
+            # a subclass of DiffX that overrides nothing
+            parsed = type('DiffX', (L.DiffX,), {}).from_stream(h)
         elif via == 'shared_reader':
             rd = L.DiffXDOMReader(L.DiffX)
             rd.reader_cls = sized_reader_cls(L, scn.get('block_size'))
